@@ -19,6 +19,7 @@ func init() {
 		Quick: []ruleDef{
 			{"REP-MAPKEYS", 16, ruleRepMapKeys},
 			{"REP-MAPGET", 7, ruleRepMapGet},
+			{"REP-MAPIDENT", 4, ruleRepMapIdent},
 		},
 	})
 	register(&propDef{
@@ -1658,6 +1659,53 @@ func ruleRepPrint(c *Ctx, r *R) {
 				return true
 			})
 		}
+		if !typed {
+			// ... or through a helper of the map that builds that Value (keyValue), rendered with
+			// String or safeStr
+			isKeyLit := func(e ast.Expr) bool {
+				cl, ok := unparen(e).(*ast.CompositeLit)
+				if !ok || !isNamed(c.TypeOf(cl), "Value") {
+					return false
+				}
+				for _, el := range cl.Elts {
+					if kv, ok := el.(*ast.KeyValueExpr); ok && types.ExprString(kv.Key) == "t" && strings.HasSuffix(nosp(c.Src(kv.Value)), ".keyType") {
+						return true
+					}
+				}
+				return false
+			}
+			ast.Inspect(fd.Body, func(n ast.Node) bool {
+				call, ok := n.(*ast.CallExpr)
+				if !ok || (c.CalleeName(call) != "Value.String" && c.CalleeName(call) != "Value.safeStr") {
+					return true
+				}
+				sel, ok := unparen(call.Fun).(*ast.SelectorExpr)
+				if !ok {
+					return true
+				}
+				if isKeyLit(sel.X) {
+					typed = true
+				}
+				if hc, ok := unparen(sel.X).(*ast.CallExpr); ok {
+					if h := c.DeclOf(c.Callee(hc)); h != nil && h.Body != nil && c.isNewHelper(c.Callee(hc)) {
+						rets, all := 0, true
+						ast.Inspect(h.Body, func(m ast.Node) bool {
+							if rs, ok := m.(*ast.ReturnStmt); ok && len(rs.Results) == 1 {
+								rets++
+								if !isKeyLit(rs.Results[0]) {
+									all = false
+								}
+							}
+							return true
+						})
+						if rets > 0 && all {
+							typed = true
+						}
+					}
+				}
+				return true
+			})
+		}
 		r.check(typed, fn+" keys", c.Pos(fd), "keys rendered as Value{t: keyType, num: k}.String()", fn+" does not render keys through a Value of the map's key type: bool keys print as 1/0 and typed keys lose their formatting")
 	}
 	// Value.safeStr dispatches to SafeStr
@@ -2147,5 +2195,207 @@ func nilToAnyRule(c *Ctx, r *R) {
 		tf := litField(p.Ret[0], "t")
 		r.check(tf != nil && (tf.String() == "TypeSlice" || tf.String() == "t"), "nil conversion to []any", c.Pos(fd), "nil converts to the typed nil of the target type",
 			"Value.convert turns nil into a nil slice of another element type ("+p.Ret[0].String()+") when the target is the bare slice type []any: `xs := append([]any(nil), src...); xs = append(xs, 1000)` stores 232, a byte")
+	}
+}
+
+// REP-MAPIDENT: two keys are the same key exactly when Go's == says so.  Every key type that
+// is not string goes to numericMap.  A number or bool is identified by Value.num; a reference
+// (struct pointer, value of a declared interface, host object) has num == 0 and is identified
+// by the object in Value.value.  So (a) the Go map numericMap.data is keyed by a type that
+// holds both parts, (b) every lookup / store / delete derives its key from both k.num and
+// k.value, (c) the key a range yields is rebuilt with its object, and (d) mapType packs only
+// the kind of the key type into its one-byte field (a `*T` key type carries the index of T in
+// its upper bits, which would run into the value type).
+func ruleRepMapIdent(c *Ctx, r *R) {
+	nm := c.NamedType("numericMap")
+	if nm == nil {
+		r.undecided("numericMap", "-", "type not found")
+		return
+	}
+	st, _ := nm.Underlying().(*types.Struct)
+	var keyT types.Type
+	if st != nil {
+		for i := 0; i < st.NumFields(); i++ {
+			if st.Field(i).Name() == "data" {
+				if mt, ok := st.Field(i).Type().Underlying().(*types.Map); ok {
+					keyT = mt.Key()
+				}
+			}
+		}
+	}
+	if keyT == nil {
+		r.undecided("numericMap.data", "-", "no map-typed field data")
+		return
+	}
+	hasNum, hasRef := false, false
+	var walk func(t types.Type, depth int)
+	walk = func(t types.Type, depth int) {
+		switch u := t.Underlying().(type) {
+		case *types.Basic:
+			if u.Info()&types.IsNumeric != 0 {
+				hasNum = true
+			}
+		case *types.Interface, *types.Pointer:
+			hasRef = true
+		case *types.Struct:
+			if depth < 3 {
+				for i := 0; i < u.NumFields(); i++ {
+					walk(u.Field(i).Type(), depth+1)
+				}
+			}
+		case *types.Array:
+			walk(u.Elem(), depth+1)
+		}
+	}
+	walk(keyT, 0)
+	r.check(hasNum && hasRef, "key type", c.Pos(c.Func("numericMap.Get")), "numericMap.data is keyed by number and object identity",
+		"numericMap.data is keyed by "+types.TypeString(keyT, func(*types.Package) string { return "" })+", which cannot tell two references apart: every struct pointer (and every value of a declared interface type) has num == 0, so `seen := map[*N]bool{}; seen[a] = true; seen[b]` is true and len(seen) stays 1 — a visited set or per-node counter silently merges all nodes")
+	// (b) the key expressions
+	var expand func(e ast.Expr, fd *ast.FuncDecl, depth int) string
+	expand = func(e ast.Expr, fd *ast.FuncDecl, depth int) string {
+		out := nosp(c.FullSrc(e))
+		if depth > 3 {
+			return out
+		}
+		ast.Inspect(e, func(n ast.Node) bool {
+			switch x := n.(type) {
+			case *ast.Ident:
+				v, ok := c.Obj(x).(*types.Var)
+				if !ok || v.IsField() {
+					return true
+				}
+				ast.Inspect(fd.Body, func(m ast.Node) bool {
+					as, ok := m.(*ast.AssignStmt)
+					if !ok || len(as.Lhs) != len(as.Rhs) {
+						return true
+					}
+					for i, l := range as.Lhs {
+						if lid, ok := unparen(l).(*ast.Ident); ok && c.Obj(lid) == types.Object(v) && as.Rhs[i].Pos() < x.Pos() {
+							out += " " + expand(as.Rhs[i], fd, depth+1)
+						}
+					}
+					return true
+				})
+			case *ast.CallExpr:
+				if o := c.Callee(x); o != nil && c.isNewHelper(o) {
+					if h := c.DeclOf(o); h != nil && h.Body != nil {
+						ast.Inspect(h.Body, func(m ast.Node) bool {
+							if rs, ok := m.(*ast.ReturnStmt); ok {
+								for _, res := range rs.Results {
+									out += " " + expand(res, h, depth+1)
+								}
+							}
+							return true
+						})
+					}
+				}
+			}
+			return true
+		})
+		return out
+	}
+	for _, fn := range []string{"numericMap.Get", "numericMap.Set", "numericMap.Delete", "newNumericMap"} {
+		fd := c.Func(fn)
+		if fd == nil {
+			r.undecided(fn, "-", "not found")
+			continue
+		}
+		n := 0
+		check := func(keyExpr ast.Expr, at ast.Node) {
+			// only keys that come from a Value (parameter or element of in): loops over m.keys
+			// re-use keys that already are of the map's key type
+			src := expand(keyExpr, fd, 0)
+			if !strings.Contains(src, ".num") && !strings.Contains(src, ".value") {
+				return
+			}
+			n++
+			r.check(strings.Contains(src, ".num") && strings.Contains(src, ".value"), fn+" key", c.Pos(at), "the key is derived from both num and the object of the key Value",
+				fn+" keys the entry by "+nosp(c.Src(keyExpr))+" — the number alone: every reference key (struct pointer, interface value) is the key 0, so map[*N]V keeps one entry for all keys")
+		}
+		ast.Inspect(fd.Body, func(m ast.Node) bool {
+			switch x := m.(type) {
+			case *ast.IndexExpr:
+				if strings.HasSuffix(nosp(c.Src(x.X)), ".data") {
+					check(x.Index, x)
+				}
+			case *ast.CallExpr:
+				if id, ok := unparen(x.Fun).(*ast.Ident); ok && id.Name == "delete" && len(x.Args) == 2 && strings.HasSuffix(nosp(c.Src(x.Args[0])), ".data") {
+					check(x.Args[1], x)
+				}
+			}
+			return true
+		})
+		if n == 0 {
+			r.undecided(fn+" key", c.Pos(fd), "no access to the data map keyed from a Value found")
+		}
+	}
+	// (c) Range rebuilds the key with its object
+	if fd := c.Func("numericMap.Range"); fd != nil {
+		good, seen := true, 0
+		ast.Inspect(fd.Body, func(m ast.Node) bool {
+			rs, ok := m.(*ast.ReturnStmt)
+			if !ok || len(rs.Results) != 3 {
+				return true
+			}
+			if id, ok := unparen(rs.Results[2]).(*ast.Ident); !ok || id.Name != "true" {
+				return true
+			}
+			seen++
+			src := expand(rs.Results[0], fd, 0)
+			if !strings.Contains(src, "value:") || !strings.Contains(src, "num:") {
+				good = false
+			}
+			return true
+		})
+		if seen == 0 {
+			r.undecided("Range key", c.Pos(fd), "no yielding return found in numericMap.Range")
+		} else {
+			r.check(good, "Range key", c.Pos(fd), "a range yields the key with its number and its object",
+				"numericMap.Range rebuilds the key from the number alone: ranging over a map[*N]V yields struct values without their object — `for k := range m { k.id }` is a nil dereference")
+		}
+	} else {
+		r.undecided("Range key", "-", "numericMap.Range not found")
+	}
+	// (d) mapType packs the kind of the key only
+	if fd := c.Func("mapType"); fd != nil && fd.Type.Params != nil && len(fd.Type.Params.List) > 0 {
+		keyObj := c.Info.Defs[fd.Type.Params.List[0].Names[0]]
+		n, good := 0, true
+		ast.Inspect(fd.Body, func(m ast.Node) bool {
+			be, ok := m.(*ast.BinaryExpr)
+			if !ok || be.Op != token.SHL {
+				return true
+			}
+			usesKey := false
+			ast.Inspect(be.X, func(k ast.Node) bool {
+				if id, ok := k.(*ast.Ident); ok && c.Obj(id) == keyObj {
+					usesKey = true
+				}
+				return true
+			})
+			if !usesKey {
+				return true
+			}
+			n++
+			x := unparen(be.X)
+			masked := false
+			if call, ok := x.(*ast.CallExpr); ok && c.CalleeName(call) == "Type.base" {
+				masked = true
+			}
+			if b2, ok := x.(*ast.BinaryExpr); ok && b2.Op == token.AND {
+				masked = true
+			}
+			if !masked {
+				good = false
+			}
+			return true
+		})
+		if n == 0 {
+			r.undecided("mapType key", c.Pos(fd), "no shift of the key type found")
+		} else {
+			r.check(good, "mapType key", c.Pos(fd), "only the kind of the key type is packed",
+				"mapType shifts the whole key type into a one-byte field: a `*T` key type carries the index of T in its upper bits, which are OR-ed into the value type — with T at a global index with bit 3 set, map[*T]int becomes a map of float64")
+		}
+	} else {
+		r.undecided("mapType key", "-", "mapType not found")
 	}
 }
